@@ -254,12 +254,31 @@ class MTSched:
     has only timers sleeps until its next timer; the clock advances to the earliest such timer
     only when no thread is runnable.  A caller of make_sync's pool waits for its worker."""
 
-    def __init__(self, world):
+    def __init__(self, world, preempt_p=0.0, prefix=None):
         self.w = world
         self.threads = []
         self.current = None
         self.main = threading.Event()
         self.failed = None
+        # line-level pre-emption inside the library (see sim/preempt.py): with probability
+        # preempt_p every source line of the package is a point where the baton may move
+        self.preempt_p = preempt_p
+        self.prefix = prefix
+        self.line_switches = 0
+
+    def _tracer(self, frame, event, arg):
+        if frame.f_code.co_filename.startswith(self.prefix) and frame.f_code.co_name != "<module>":
+            return self._local
+        return None
+
+    def _local(self, frame, event, arg):
+        if event == "line" and self.line_switches < 2000 and self.w.rng.random() < self.preempt_p:
+            me = self.current
+            if me is not None and me.thread is threading.current_thread() and me.state == "runnable" \
+                    and sum(1 for x in self.threads if x.state == "runnable") > 1:
+                self.line_switches += 1
+                self.yield_point(None)
+        return self._local
 
     def spawn(self, name, fn):
         t = _SimThread(name, fn)
@@ -272,10 +291,15 @@ class MTSched:
         if not t.event.wait(100):
             return
         t.event.clear()
+        if self.preempt_p and self.prefix:
+            sys.settrace(self._tracer)
         try:
             t.fn()
         except BaseException as e:
             t.exc = e
+        finally:
+            if self.preempt_p and self.prefix:
+                sys.settrace(None)
         t.state = "done"
         for x in self.threads:
             if x.waiting_on is t:
@@ -358,10 +382,11 @@ class MTSched:
         return f
 
 
-def run_threads(world: World, fns):
+def run_threads(world: World, fns, preempt_p=0.0, prefix=None):
     """Run the callables as simulated threads to completion under the world's scheduler.  The
     calling (coordinator) thread is blocked meanwhile."""
-    mt = MTSched(world)
+    mt = MTSched(world, preempt_p, prefix)
+    world.last_mt = mt
     world.mt = mt
     try:
         ts = [mt.spawn(f"user{i}", fn) for i, fn in enumerate(fns)]
